@@ -120,6 +120,11 @@ def gen_harness(job, fi, contract):
             L.append('  %s %s[%s]; for (int i_ = 0; i_ < (int)(%s); ++i_) %s[i_] = %s;' % (bt, n, dim, dim, n, nondet_for(bt)))
             L.append('  %s *%s_ptr = nondet_bool() ? %s : (%s *)0;' % (bt, n, n, bt))
             args.append(n + '_ptr')
+        elif p.kind == 'obj_in' and p.ctype.replace('const', '').replace('*', '').strip() == 'vvec_d':
+            # const std::vector<real>& : a (pointer, length) view; the length is arbitrary, the data an arbitrary small buffer (contracts that read
+            # elements state their own r_ok preconditions)
+            L.append('  static double %s_data[4]; vvec_d %s; %s.p = %s_data; %s.n = nondet_int();' % (n, n, n, n, n))
+            args.append('&' + n)
         elif p.kind == 'obj_in' and p.ctype.replace('const', '').replace('*', '').strip().startswith('struct '):
             # const Class& : an arbitrary object of that class (its invariant, where needed, is a precondition of the contract)
             st = p.ctype.replace('const', '').replace('*', '').strip()
@@ -453,6 +458,7 @@ def run_job(proj, job, workdir, tier='quick', seed=0, only_property=None, noslic
     res['fi'] = b['fi']
     res['strcap'] = job.strcap
     res['replace_contracts'] = b['replace']
+    res['const_classes'] = list(job.const_classes)
     res['replay_ghost'] = getattr(job, 'replay_ghost', [])
     res['jobobj'] = job
     os.makedirs(os.path.join(OUT, 'tu'), exist_ok=True)
